@@ -173,12 +173,42 @@ def cells_match(rep, rule, inst, cells_img, cells_tgt, key, proviso=None, fb=Non
     rep.ob(rule, inst, bad is None, bad or "image under the symmetry equals the sibling component on every cell", key=key + "|" + (bad or "")[:100])
 
 
+CASE_SPLIT = "decisions"     # both outcomes of a branch on a whole-array reduction are analysed; size orderings are not split here
+_PATH_DIGESTS = {}
+
+
+def path_dependence(S, cfg, run, rep, lab):
+    """a step whose path depends on whether max/min of a direction-bearing input (not of its magnitude) is zero cannot commute
+    with mirrors and relabellings: the transformed state takes the other path.  Reported when the two paths differ."""
+    from ..regions import CURRENT_CASE
+    import hashlib
+    for name, nz in CURRENT_CASE[0].decisions:
+        red = getattr(S.I.ext, "reductions", {}).get(name)
+        if red is None:
+            continue
+        arr = red[1]
+        der = getattr(arr.alloc, "derivation", None)
+        raw = der is None
+        st = run.store
+        dig = hashlib.sha1(repr([(n, [(repr(p.box), repr(p.expr)) for p in st.defs[n]["pieces"]]) for n in st.def_order
+                                 if st.defs[n]["kind"] == "stage"]).encode()).hexdigest()
+        key = (repr(sorted(cfg.items())), name)
+        other = _PATH_DIGESTS.setdefault(key, {})
+        other[nz] = dig
+        if len(other) == 2 and other[True] != other[False] and raw:
+            rep.ob("C14.step", "%s :: path does not depend on the orientation of the data" % lab, False,
+                   "the step computes different results depending on whether %s is zero; %s of the raw components of %s is not invariant under "
+                   "mirroring or relabelling the axes, so a transformed state takes the other path" % (name, red[0], arr.alloc.label),
+                   key="C14.step|%s|path|%s" % (cfg["kind"], name))
+
+
 def sim_config(S, cfg, rep):
     run = stepped_sim(S, cfg)
     lab = run.label()
     if run.raised is not None or run.problems or run.store is None:
         rep.ob("C14.step", lab, False, "time step cannot be analysed: %s" % (run.raised,), key="C14.step|%s|raises" % lab)
         return
+    path_dependence(S, cfg, run, rep, lab)
     dim = run.dim
     kinds = dict(SIM_KINDS[dim])
     if cfg["kind"] == "passive" and cfg["field_type"] == "vector":
